@@ -3,7 +3,7 @@ from props.c02 import CLS, CONTAINER_ELEMS
 from props.c05 import ALL_UNITS, KIND
 
 BOUNDS = {'containers': 'list/vector/map flavour of each class, n = 0..3 owned elements (quick 0..2); every removal position',
-          'other classes': 'new();del() for str, mbuff, objpair, tok, url, obj, regexp and the nine container flavours; substring, re-evaluation, setter, done()+reuse scenarios on concrete small texts',
+          'other classes': 'new();del() for str, mbuff, objpair, tok, url, obj, regexp and the nine container flavours; substring, re-evaluation, setter, done()+reuse scenarios on concrete small texts; parse+dup+del of 13 URL texts (empty port, empty password, missing parts) with symbolic name-service outcomes',
           'str/mbuff operations': 'every C01/C07 step harness re-run with --memory-leak-check (each harness deletes all it created)'}
 RULE = 'C06 shapes: (class, flavour, scenario, n, position); one API call per scenario from a directly built valid state, the harness acting as a correct caller.'
 ASSUMPTIONS = ['"all finite programs" is covered as: every single API call is ownership-neutral from every valid state within the size bound; sequences follow by induction',
@@ -50,6 +50,8 @@ def families(tier):
             g.add('C06/new_del/%s_%s' % (cn, kn), 'h_new_del', 10 + 3 * ci + ki)
     for w, nm in enumerate(('substr', 'tok_eval_twice', 'tok_set_sep_twice', 'url_setter_unparse_done', 'objpair_set_value', 'str_done_reuse')):
         g.add('C06/misc/%s' % nm, 'h_misc', w, unwind=18)
+    for w in range(13):
+        g.add('C06/url/parse_dup_del/text=%d' % w, 'h_url', w, unwind=18)
     fams = [g, h]
     # the C01 / C07 step harnesses under the leak check
     import props.c01 as c01, props.c07 as c07
